@@ -247,6 +247,26 @@ CLAIMED["C03"] = dict(
          "and are not moved.",
 )
 
+CLAIMED["C16"] = dict(
+    text="Theorems about Model.Layout, where a statement is an arbitrary function of the address it is emitted at (so every operand form "
+         "and expression, including '.', is an instance) and emitBlock / repeatEmit / linkFiles are compile_block, '.repeat' and "
+         "compile_and_link_files: '.repeat n { body }' emits exactly what the body written out n times emits, every copy at its own "
+         "address, for every n, also in any context and hence for nested repeats (repeat_unroll, repeat_unroll_in_context); linking files "
+         "equals assembling their concatenation (link_concat); '.end' discards exactly the rest of its own file - not the files linked "
+         "after it, not the includer (end_discards, end_discards_own_file_only, end_in_include); an include is its statements in place "
+         "(include_inline); '.once' lets the first compilation through and stops every later one (once_first, once_again); the chunk of "
+         "'insert_file' equals what '.byte b1,...,bn' emits, with no report (insert_eq_byte, over Directive.byteDir). Tie: pairs "
+         "(program, written-out equivalent) on the real assembler - layout-language programs also against Layout.linkFiles, rich "
+         "repeat bodies, concatenation, insert_file vs .byte, .end vs truncation, .once vs single inclusion - and both members through "
+         "the whole-program model.",
+    design_ref="DESIGN.md §5 C16",
+    technique="Lean 4 theorems (induction on statement lists, on n and on the file list) + metamorphic equivalence oracle on the implementation + Layout/whole-program model correspondence",
+    note=NOTE + "The premise of the theorems is that a statement's bytes depend on its address only. That a statement inside a repeat body really "
+         "is such a function - no state shared between copies - is what the rich-body stream decides (it found F-C16-1 and F-C16-2, "
+         "repaired by 6d3d794 and 0c5f87f). '.end' inside a '.repeat' body ends that copy only (compile_block catches the stop); the "
+         "property speaks of files, the model and the code agree on blocks.",
+)
+
 PENDING_REASON = "check not built yet (build in progress; see DESIGN.md §8 for the order)"
 
 
